@@ -23,6 +23,7 @@ mut("read-total-without-storage", "C07", "read.rs",
 mut("read-header-len-off-by-one", "C07", "read.rs",
     "let header_len = storage_len + HEADER_MIN_LENGTH as usize;", "let header_len = storage_len + HEADER_MIN_LENGTH as usize + 1;")
 mut("read-revert-fix", "C07", "read.rs", "        if total_len < header_len {", "        if false {", "reverse of fix 8bc4a4b")
+mut("read-revert-fix-oversize", "C07", "read.rs", "        if total_len > self.buffer.len() {", "        if false {", "reverse of fix f9856d4")
 mut("parse-length-little-endian", "C07", "parse.rs",
     "let (rest, (_, length)) = tuple((take(2usize), be_u16))(input)?;", "let (rest, (_, length)) = tuple((take(2usize), le_u16))(input)?;")
 mut("parse-length-offset-1", "C07", "parse.rs",
@@ -37,6 +38,7 @@ mut("stream-phase1-partial", "C08", "stream.rs",
 mut("stream-total-without-storage", "C08", "stream.rs",
     "let total_len = storage_len + message_len as usize;", "let total_len = message_len as usize;")
 mut("stream-revert-fix", "C08", "stream.rs", "        if total_len < header_len {", "        if false {", "reverse of fix 434cb7d")
+mut("stream-revert-fix-oversize", "C08", "stream.rs", "        if total_len > self.buffer.len() {", "        if false {", "reverse of fix 96227e5")
 mut("stream-eof-as-error", "C08", "stream.rs",
     "            return Ok(&[]);", "            return Err(DltParseError::Unrecoverable(\"eof\".to_string()));", "terminal outcome of another kind than the blocking reader")
 # ---------------------------------------------------------------- C10 (statistics)
